@@ -207,6 +207,8 @@ class KBEval:
                 fw = type_info(n.get('from'))
                 w, _ = self.width_of(n)
                 if ck == 'IntegralToBoolean':
+                    if sub.ones:
+                        return KB.const(1, 1)
                     return KB.top(1) if sub.value() is None else KB.const(1, 1 if sub.value() else 0)
                 return sub.resize(w, fw[1] if fw else False)
             raise AnalysisBroken('known-bits: unsupported cast %s in %s' % (ck, astq.show(n)[:80]))
@@ -277,6 +279,20 @@ class KBEval:
                     res = {'==': av == bv, '!=': av != bv, '<': av < bv, '>': av > bv, '<=': av <= bv, '>=': av >= bv}[op]
                     return KB.const(w, 1 if res else 0)
                 lt = type_info(n['l'].get('ty'))
+                if lt and not lt[1] and op in ('<', '>=', '>', '<='):
+                    # unsigned interval reasoning from the known bits
+                    alo, ahi, blo, bhi = a.umin(), a.umax(), b.umin(), b.umax()
+                    dec = None
+                    if op in ('<', '>='):
+                        dec = True if ahi < blo else (False if alo >= bhi else None)
+                        if dec is not None and op == '>=':
+                            dec = not dec
+                    else:
+                        dec = True if alo > bhi else (False if ahi <= blo else None)
+                        if dec is not None and op == '<=':
+                            dec = not dec
+                    if dec is not None:
+                        return KB.const(w, 1 if dec else 0)
                 if lt and lt[1] and bv == 0 and op in ('<', '>=') and a.bit(a.w - 1) is not None:
                     neg = a.bit(a.w - 1) == 1
                     return KB.const(w, 1 if (neg if op == '<' else not neg) else 0)
